@@ -5,25 +5,21 @@ Import ListNotations.
 Open Scope N_scope.
 
 (* what was wrong before the repair (commit bfc66da in /repo): with `copy_within(pos..cap, offset)` the bytes
-   buf[0..offset] keep old content although abs_pos claims them; capacity 3*4096, low mark 4096,
-   consume 12188, refill, seek(Start(12187)) is accepted and the next byte read is source[3995] *)
+   buf[0..offset] keep old content although abs_pos claims them.  Capacity 3*4096, low mark 4096, source
+   byte i = i mod 251: consume 12188, refill, seek(Start(12187)) is accepted and the next byte read is
+   source[3995] = 230 instead of source[12187] = 139.  With the repaired compaction it is 139. *)
+Definition stale_witness (compact_fn : reader -> res reader) : list out :=
+  match new_reader {| s_rest := expand [SRamp 0 1 20000]; s_sched := [] |} 12288 4096 with
+  | Ok r => match run compact_fn r [OFill; OConsume 12188; OFill; OSeekStart 12187; ORead 1] with
+            | Ok (evs, _) => map e_out (skipn 3 evs)
+            | _ => []
+            end
+  | _ => []
+  end.
 Theorem C04_seek_stale_before_fix :
-  exists data r evs r',
-    new_reader {| s_rest := data; s_sched := [] |} 12288 4096 = Ok r /\
-    run compact_unfixed r [OFill; OConsume 12188; OFill; OSeekStart 12187; ORead 1] = Ok (evs, r') /\
-    map e_out (skipn 3 evs) = [RSeek (Some 12187); RRead [nth 3995 data 0]] /\
-    nth 3995 data 0 <> nth 12187 data 0.
-Proof.
-  exists (expand [SRamp 0 1 20000]).
-  destruct (new_reader {| s_rest := expand [SRamp 0 1 20000]; s_sched := [] |} 12288 4096) as [r| |] eqn:E;
-    [|vm_compute in E; discriminate|vm_compute in E; discriminate].
-  exists r.
-  destruct (run compact_unfixed r [OFill; OConsume 12188; OFill; OSeekStart 12187; ORead 1]) as [[evs r']| |] eqn:E2.
-  - exists evs, r'. split; [reflexivity|]. split; [reflexivity|].
-    revert E2. inversion E; subst r. clear E. intros E2.
-    vm_compute in E2. inversion E2; subst. vm_compute. split; [reflexivity|discriminate].
-  - exfalso. inversion E; subst r. vm_compute in E2. discriminate.
-  - exfalso. inversion E; subst r. vm_compute in E2. discriminate.
-Qed.
+  stale_witness compact_unfixed = [RSeek (Some 12187); RRead [230]] /\
+  stale_witness compact = [RSeek (Some 12187); RRead [139]] /\
+  nth 3995 (expand [SRamp 0 1 20000]) 0 = 230 /\ nth 12187 (expand [SRamp 0 1 20000]) 0 = 139.
+Proof. vm_compute. auto. Qed.
 
 Print Assumptions C04_seek_stale_before_fix.
